@@ -107,7 +107,9 @@ func vfNewPKI() (*vfPKI, error) {
 func vfTLSNull(port int, roots *x509.CertPool, minV, maxV uint16, cert *tls.Certificate, recordMarking bool) (bool, uint16, int64, error) {
 	cfg := &tls.Config{RootCAs: roots, ServerName: "localhost", MinVersion: minV, MaxVersion: maxV}
 	if cert != nil {
-		cfg.Certificates = []tls.Certificate{*cert}
+		// present this certificate whatever CAs the server says it accepts (a Go client
+		// would otherwise silently send none when the issuer is not on the list)
+		cfg.GetClientCertificate = func(*tls.CertificateRequestInfo) (*tls.Certificate, error) { return cert, nil }
 	}
 	d := &net.Dialer{Timeout: 10 * time.Second}
 	conn, err := tls.DialWithDialer(d, "tcp", fmt.Sprintf("127.0.0.1:%d", port), cfg)
